@@ -8,18 +8,21 @@ import Spydr.Edif.LemmasBits
 namespace Spydr.Edif
 
 /-- one `(net …)` of a cell as the text declares it: a scalar net (`idx = none`) called
-    (ident, name), or bit `i` of the bus called (ident, name), written `(rename ident_i_ "name[i]")` -/
+    (ident, name), or bit `i` of the bus called (ident, name), written `(rename ident_j_ "name[i]")`: the index `j`
+    in the identifier (`iidx`) need not be the index in the name — the reader takes the bit position from the
+    name and only looks whether the identifier has an index at all -/
 structure NetItem where
   ident : Str
   name : Str
   idx : Option Nat
   pins : List CPin
+  iidx : Nat := 0
 
 /-- the dictionary `parse_net` hands to `multibit_add_cable` -/
 def NetItem.data (it : NetItem) : Data :=
   match it.idx with
   | none => withName [] it.ident it.name
-  | some i => withName [] (bitIdent it.ident i) (bitName it.name i)
+  | some i => withName [] (bitIdent it.ident it.iidx) (bitName it.name i)
 
 /-- what the text means, one net at a time: a scalar net is a new cable; the first bit of a bus is a
     new array cable based at that bit; a further bit goes into the bus's cable at its index -/
@@ -217,6 +220,38 @@ structure NetsWF (items : List NetItem) : Prop where
   diff : ∀ a ∈ items, ∀ b ∈ items, a.name ≠ b.name → lower a.ident ≠ lower b.ident
   scalar_once : ((items.filter (fun it => it.idx.isNone)).map (·.name)).Nodup
 
+theorem withName_nil_setIdent (a b n x : Str) :
+    (withName [] a n).set kIDENT (.str x) = (withName [] b n).set kIDENT (.str x) := by
+  have h1 : ¬ (kNAME = kIDENT) := by decide
+  have h2 : ¬ (kIDENT = kNAME) := by decide
+  simp only [withName, Data.set, h1, h2, if_false, if_true]
+
+/-- `multibitAdd_newBus` with any index `j` in the identifier: only the name's index counts -/
+theorem multibitAdd_newBus2 (cs : List CCable) (ident name : Str) (i j : Nat) (pins : List CPin)
+    (hba : bracketAllowed (bitName name i) = true)
+    (hc : checkEdifIdentifier ident = true)
+    (hfn : findName (cs.map (·.data)) name = none)
+    (hfi : findIdent (cs.map (·.data)) ident = none)
+    (hconf : conflicts (cs.map (·.data)) (busCable ident name i [pins]).data = false) :
+    multibitAdd cs (withName [] (bitIdent ident j) (bitName name i)) pins =
+      .ok (cs ++ [busCable ident name i [pins]]) := by
+  unfold multibitAdd
+  simp only [identOf_withName, nameOf_withName, bitName_ne_nil, if_false, sepIdent_bitIdent,
+    sepName_bitName name i hba, Option.isNone_some, Bool.false_eq_true, hfn, hfi, hc, Bool.not_true]
+  simp only [busCable] at hconf
+  rw [withName_nil_setIdent (bitIdent ident j) (bitIdent ident i)]
+  simp [hconf, busCable, pure, Except.pure]
+
+/-- `multibitAdd_merge` with any index `j` in the identifier -/
+theorem multibitAdd_merge2 (cs : List CCable) (ident name : Str) (i j k : Nat) (ex : CCable) (pins : List CPin)
+    (hba : bracketAllowed (bitName name i) = true)
+    (hfn : findName (cs.map (·.data)) name = some k) (hk : cs[k]? = some ex) (harr : ex.isArray = true) :
+    multibitAdd cs (withName [] (bitIdent ident j) (bitName name i)) pins = .ok (cs.set k (mergeInto ex i pins)) := by
+  unfold multibitAdd
+  simp only [identOf_withName, nameOf_withName, bitName_ne_nil, if_false, sepIdent_bitIdent,
+    sepName_bitName name i hba, Option.isNone_some, Bool.false_eq_true, hfn, hk, harr, Bool.not_true,
+    pure, Except.pure]
+
 /-- every cable built so far comes from a net already read -/
 def FromItems (done : List NetItem) (cs : List CCable) : Prop :=
   ∀ c ∈ cs, ∃ it ∈ done, nameOf c.data = some it.name ∧ identOf c.data = some it.ident ∧
@@ -325,7 +360,7 @@ theorem multibitAdd_netStep (items done : List NetItem) (it : NetItem) (rest : L
     exact multibitAdd_scalar cs _ it.ident it.name it.pins (identOf_withName _ _ _) (nameOf_withName _ _ _) hne hkind hfn hconf
   | some i =>
     simp only [hi] at hkind
-    have hd : it.data = withName [] (bitIdent it.ident i) (bitName it.name i) := by simp [NetItem.data, hi]
+    have hd : it.data = withName [] (bitIdent it.ident it.iidx) (bitName it.name i) := by simp [NetItem.data, hi]
     rw [hd]
     cases hf : findName (cs.map (·.data)) it.name with
     | none =>
@@ -333,7 +368,7 @@ theorem multibitAdd_netStep (items done : List NetItem) (it : NetItem) (rest : L
       have hfi := hident_name hf
       have hconf := conflicts_false_of_fresh (cs.map (·.data)) (busCable it.ident it.name i [it.pins]).data it.ident it.name
         (identOf_busCable _ _ _ _) (nameOf_busCable _ _ _ _) hf hfi
-      exact multibitAdd_newBus cs it.ident it.name i it.pins hkind hc hf hfi hconf
+      exact multibitAdd_newBus2 cs it.ident it.name i it.iidx it.pins hkind hc hf hfi hconf
     | some k =>
       have hlt := findName_lt _ _ _ hf
       simp only [List.length_map] at hlt
@@ -346,7 +381,7 @@ theorem multibitAdd_netStep (items done : List NetItem) (it : NetItem) (rest : L
       have hxn : x.name = it.name := (Option.some.inj h1).symm
       have hsame := (hwf.same x (hdone x hx) it hit hxn).2
       rw [hi] at hsame
-      exact multibitAdd_merge cs it.ident it.name i k cs[k] it.pins hkind hf hk (isArray_of_flag _ (h3 (by simpa using hsame)))
+      exact multibitAdd_merge2 cs it.ident it.name i it.iidx k cs[k] it.pins hkind hf hk (isArray_of_flag _ (h3 (by simpa using hsame)))
 
 /-- the reader's net loop computes `netStep` on well-formed texts -/
 theorem foldlM_multibitAdd (items : List NetItem) (hwf : NetsWF items) :
